@@ -9,12 +9,24 @@ ASSUMPTIONS = ['time.sleep and the logger are patched in the harness process', '
 TRUSTED = ['Python `except <classes>` semantics (isinstance against a class or tuple) is taken from the interpreter: the harness classifies each raised object as listed/foreign with the same isinstance test']
 
 KINDS = ['ret', 'listed', 'listedsub', 'foreign', 'base']
+# less common outcomes (seeded part + a reduced exhaustive block): the function RETURNS an exception instance (a return is a return,
+# whatever is returned), raises TypeError (foreign unless the spec lists it - the error class a wrong call of the machinery itself
+# would raise), returns None
+KINDS_X = KINDS + ['retexc', 'retforeignexc', 'typeerr', 'retnone']
 SPECS = ['class', 'tuple', 'tuple_base_sub']
-ABS = {'ret': 'ret', 'listed': 'listed', 'listedsub': 'listed', 'foreign': 'foreign', 'base': 'foreign'}
+SPECS_X = SPECS + ['tuple_with_typeerror']
+ABS = {'ret': 'ret', 'listed': 'listed', 'listedsub': 'listed', 'foreign': 'foreign', 'base': 'foreign',
+       'retexc': 'ret', 'retforeignexc': 'ret', 'retnone': 'ret'}
+
+
+def abs_kind(k, spec):
+    if k == 'typeerr':
+        return 'listed' if spec == 'tuple_with_typeerror' else 'foreign'
+    return ABS[k]
 
 
 def mk(attempts, seq, form, spec):
-    return {'m': 'retry', 'c': {'attempts': attempts, 'script': [[ABS[k], i] for i, k in enumerate(seq)]},
+    return {'m': 'retry', 'c': {'attempts': attempts, 'script': [[abs_kind(k, spec), i] for i, k in enumerate(seq)]},
             'x': {'kinds': list(seq), 'form': form, 'spec': spec}}
 
 
@@ -30,10 +42,16 @@ def cases(rng, tier):
                             out.append(mk(attempts, seq, form, spec))
                 else:
                     out.append(mk(attempts, seq, ('func', 'deco')[k % 2], SPECS[(k // 2) % 3]))
+    for attempts in range(0, 4):          # the extended alphabet, exhaustively up to length 3
+        for n in range(1, 4):
+            for k, seq in enumerate(itertools.product(KINDS_X, repeat=n)):
+                if any(x in seq for x in ('retexc', 'retforeignexc', 'typeerr', 'retnone')):
+                    for form in ('func', 'deco'):
+                        out.append(mk(attempts, seq, form, SPECS_X[k % 4]))
     for _ in range(300 if tier == 'quick' else 5000):
         n = rng.randint(5, 40)
-        seq = [rng.choice(['listed', 'listedsub'] * 6 + KINDS) for _ in range(n)]
-        out.append(mk(rng.randint(-3, 45), seq, rng.choice(['func', 'deco']), rng.choice(SPECS)))
+        seq = [rng.choice(['listed', 'listedsub'] * 6 + KINDS_X) for _ in range(n)]
+        out.append(mk(rng.randint(-3, 45), seq, rng.choice(['func', 'deco']), rng.choice(SPECS_X)))
     return out
 
 
@@ -41,7 +59,7 @@ def search(rng, tier, near):
     out = []
     for _ in range(4000):
         n = rng.randint(0, 12)
-        out.append(mk(rng.randint(-2, 14), [rng.choice(KINDS) for _ in range(n)], rng.choice(['func', 'deco']), rng.choice(SPECS)))
+        out.append(mk(rng.randint(-2, 14), [rng.choice(KINDS_X) for _ in range(n)], rng.choice(['func', 'deco']), rng.choice(SPECS_X)))
     return out
 
 
@@ -54,7 +72,7 @@ def run_impl(cases):
     class Base2(Exception): pass
     class Other(Exception): pass
     class BE(BaseException): pass
-    specs = {'class': Base1, 'tuple': (Base1, Base2), 'tuple_base_sub': (Base1, Sub1)}
+    specs = {'class': Base1, 'tuple': (Base1, Base2), 'tuple_base_sub': (Base1, Sub1), 'tuple_with_typeerror': (Base1, TypeError)}
     events = []
     orig_sleep = R.time.sleep
     R.time.sleep = lambda s: events.append(['sleep'])
@@ -69,7 +87,7 @@ def run_impl(cases):
         i = len(arglog)
         events.append(['call', i]); arglog.append((a, k))
         if i >= len(seq): return sentinel
-        if seq[i] == 'ret': return objs[i]
+        if seq[i] in ('ret', 'retexc', 'retforeignexc', 'retnone'): return objs[i]
         raise objs[i]
     wrappers = {}
     try:
@@ -78,7 +96,8 @@ def run_impl(cases):
             objs = []
             for i, k in enumerate(seq):
                 objs.append({'ret': lambda i=i: ('R', i), 'listed': lambda: Base1(), 'listedsub': lambda: Sub1(),
-                             'foreign': lambda: Other(), 'base': lambda: BE()}[k]())
+                             'foreign': lambda: Other(), 'base': lambda: BE(), 'retexc': lambda: Base1(), 'retforeignexc': lambda: Other(),
+                             'typeerr': lambda: TypeError('raised by the retried function'), 'retnone': lambda: None}[k]())
             del events[:]
             arglog = []
             cur.update(seq=seq, objs=objs, arglog=arglog)
@@ -92,10 +111,10 @@ def run_impl(cases):
                         wrappers[key] = R.retry(attempts=attempts, exceptions=specs[x['spec']])(f)
                     r = wrappers[key](*A, **K)
                 if r is sentinel: res = ['ret', 999999]
-                elif r is None: res = ['retNone']
                 else:
-                    idx = [i for i, o in enumerate(objs) if o is r]
-                    res = ['ret', idx[0]] if idx else ['ret', -1]
+                    # which invocation's result object came back (None is identified by the position of the last invocation)
+                    idx = [i for i, o in enumerate(objs) if o is r and (r is not None or i == len(arglog) - 1)]
+                    res = ['ret', idx[0]] if idx else (['retNone'] if r is None else ['ret', -1])
             except BaseException as e:
                 idx = [i for i, o in enumerate(objs) if o is e]
                 res = ['exc', idx[0]] if idx else ['exc', -1, type(e).__name__]
